@@ -271,7 +271,7 @@ def parse_export(j):
 
 def run_case(case):
     res = {"steps": []}
-    SHARED.clear()
+    SHARED.clear(); MID.clear()
     try:
         ns = {}
         for s in case["services"]:
@@ -311,13 +311,23 @@ def run_case(case):
             elif o == "addchar":
                 s = svcs[op["i"]]
                 s.add_characteristic(mk_char(op["char"], share=False))
+                MID[k] = ["add_characteristic", obj_layout(s)]
                 res.setdefault("rets", {})[str(k)] = p.update_service(s)
             elif o == "delchar":
                 s = svcs[op["i"]]
                 cs = list(s.characteristics())
                 if op["j"] < len(cs):
                     s.remove_characteristic(cs[op["j"]])
+                    MID[k] = ["remove_characteristic", obj_layout(s)]
                     res.setdefault("rets", {})[str(k)] = p.update_service(s)
+            elif o == "adddesc":
+                s = svcs[op["i"]]
+                cs = list(s.characteristics())
+                if op["j"] < len(cs):
+                    d = mk_desc(op["desc"])
+                    d.characteristic = cs[op["j"]]
+                    cs[op["j"]].add_descriptor(d)
+                res.setdefault("rets", {})[str(k)] = p.update_service(s)
             elif o == "remove":
                 p.remove_service(svcs[op["i"]])
             else:
@@ -327,6 +337,7 @@ def run_case(case):
             res["steps"].append(guard(lambda: light(p)))
             return res
         res["steps"].append(light(p))
+    res["mid"] = {str(k): v for k, v in MID.items()}
     try:
         res["final"] = full(p)
         res["lookups"] = lookups(p, case["queries"])
@@ -351,7 +362,16 @@ def run_case(case):
     return res
 
 
-def apply_op(p, op):
+def obj_layout(s):
+    """The handles a service OBJECT carries (public properties), before the profile re-registers it."""
+    return {"handle": s.handle, "end": s.end_handle, "incs": [i.handle for i in s.included_services()],
+            "chars": [[c.handle, c.value_handle, c.end_handle, [d.handle for d in c.descriptors()]] for c in s.characteristics()]}
+
+
+MID = {}         # per case: step index -> layout of the mutated service object, before update_service
+
+
+def apply_op(p, op, k=None):
     """One operation on the profile (same as in run_case)."""
     svcs = listed_services(p)
     o = op["op"]
@@ -364,13 +384,23 @@ def apply_op(p, op):
     elif o == "addchar":
         s = svcs[op["i"]]
         s.add_characteristic(mk_char(op["char"], share=False))
+        MID[k] = ["add_characteristic", obj_layout(s)]
         p.update_service(s)
     elif o == "delchar":
         s = svcs[op["i"]]
         cs = list(s.characteristics())
         if op["j"] < len(cs):
             s.remove_characteristic(cs[op["j"]])
+            MID[k] = ["remove_characteristic", obj_layout(s)]
             p.update_service(s)
+    elif o == "adddesc":
+        s = svcs[op["i"]]
+        cs = list(s.characteristics())
+        if op["j"] < len(cs):
+            d = mk_desc(op["desc"])
+            d.characteristic = cs[op["j"]]
+            cs[op["j"]].add_descriptor(d)
+        p.update_service(s)
     elif o == "remove":
         p.remove_service(svcs[op["i"]])
     else:
@@ -381,7 +411,7 @@ def run_hist(case):
     """A history in which service objects are assembled by hand, in any order of the primitive
     operations, interleaved with operations on the profile; observed after EVERY step."""
     res = {"steps": []}
-    SHARED.clear()
+    SHARED.clear(); MID.clear()
     try:
         ns = {}
         for s in case["services"]:
@@ -399,7 +429,7 @@ def run_hist(case):
             if t == "new":
                 pending.append(PrimaryService(uuid=mk_uuid(h["uuid"])) if h["primary"] else SecondaryService(mk_uuid(h["uuid"])))
             elif t == "op":
-                apply_op(p, h["op"])
+                apply_op(p, h["op"], k)
             elif h["i"] >= len(pending):
                 pass
             elif t == "attach":
@@ -421,6 +451,7 @@ def run_hist(case):
             res["steps"].append(guard(lambda: light(p)))
             return res
         res["steps"].append(light(p))
+    res["mid"] = {str(k): v for k, v in MID.items()}
     try:
         res["final"] = full(p)
         res["lookups"] = lookups(p, case["queries"])
